@@ -1,7 +1,9 @@
 """Helpers shared by the link-level checks (C01, C02, C08, C10, C20)."""
 import sys
 
-sys.path.insert(0, "/repo") if "/repo" not in sys.path else None
+import os
+_R = os.environ.get("VERIF_REPO_ROOT", "/repo")
+sys.path.insert(0, _R) if _R not in sys.path else None
 
 from nrfsim.mcu import World  # noqa: E402
 from nrfsim.core import stream  # noqa: E402
